@@ -92,9 +92,10 @@ Op(rr) ==
         nd == Needle(h, rr)
     IN
     CASE o = 1 -> New("int", IntV(n), Call("len", <<V(i)>>))
-      [] o = 2 -> LET k == Ch(0..(n + 1), rr[3])
-                  IN IF k >= n THEN NewErr("str", Call("get", <<V(i), Lit(k)>>))
-                     ELSE New("str", <<h[k + 1]>>, Call("get", <<V(i), Lit(k)>>))
+      \* negative indices count from the end (shipped script 089), in characters like everything else
+      [] o = 2 -> LET k == Ch((-n - 1)..(n + 1), rr[3])  j == IF k < 0 THEN n + k ELSE k
+                  IN IF j < 0 \/ j >= n THEN NewErr("str", Call("get", <<V(i), Lit(k)>>))
+                     ELSE New("str", <<h[j + 1]>>, Call("get", <<V(i), Lit(k)>>))
       [] o = 3 -> LET a == Ch(0..n, rr[3]) b == Ch(a..n, rr[4])
                   IN New("str", SubSeq(h, a + 1, b), Call("substring", <<V(i), Lit(a), Lit(b)>>))
       [] o = 4 -> LET a == Ch(0..n, rr[3]) IN New("str", SubSeq(h, a + 1, n), Call("substring", <<V(i), Lit(a)>>))
